@@ -381,6 +381,8 @@ func (m *Machine) resetPath(prefix []int) {
 	m.pathVars = nil
 	m.ufArgs = nil
 	m.splitMemo = nil
+	m.sigChecks = nil
+	m.realise = nil
 	m.payloads = nil
 }
 
